@@ -23,16 +23,20 @@ EXTENDS CronContract
 CONSTANTS Scheds,     \* Scheds[i] = [p, ph]: schedule of the i-th entry added
           Blocking,   \* ids whose job blocks until released
           MaxNow, MaxStep, MaxOps,
-          Variant     \* "ok" | "stalenow" (remove arm keeps the old now) | "lateadd" (jobWaiter.Add inside the job goroutine)
+          Variant,    \* "ok" | "stalenow" (remove arm keeps the old now) | "lateadd" (jobWaiter.Add inside the job goroutine)
+                      \* | "unsortedadd" (add arm keeps the timer and skips the re-sort when the new entry is not before the head)
+                      \* | "sharedmu" (DelayIfStillRunning's mutex shared by all entries of the Cron)
+          Chain       \* the WithChain option: "none" | "delay" | "skip" (Recover is the identity for jobs that do not panic)
 
 N == Len(Scheds)
 Ids == 1..N
 
 VARIABLES now, running, list, nx, pv, nadded, lpc, lnow, wi, timer,
           cpc, cop, reply, nops, nstops, jobs, wg, watchers, c,
+          chain,      \* the chain in use (the constant Chain when model checking, the recorded one when replaying a trace)
           sch, blk    \* sch[i]: schedule of entry i, blk: ids whose job blocks - filled by the Schedule call (from the
                       \* constants when model checking, from the recorded call when a trace of the real Cron is replayed)
-vars == <<now, running, list, nx, pv, nadded, lpc, lnow, wi, timer, cpc, cop, reply, nops, nstops, jobs, wg, watchers, c, sch, blk>>
+vars == <<now, running, list, nx, pv, nadded, lpc, lnow, wi, timer, cpc, cop, reply, nops, nstops, jobs, wg, watchers, c, chain, sch, blk>>
 
 Off == [on |-> FALSE, dl |-> 0, fired |-> FALSE, buf |-> FALSE, val |-> 0]
 NoOp == [op |-> "none", id |-> 0]
@@ -40,11 +44,14 @@ NoOp == [op |-> "none", id |-> 0]
 RECURSIVE Feed(_, _)
 Feed(cc, es) == IF es = << >> THEN cc ELSE Feed(CNext(cc, Head(es)), Tail(es))
 
-Init == /\ now = 0 /\ running = FALSE /\ list = << >> /\ nx = [i \in Ids |-> 0] /\ pv = [i \in Ids |-> 0]
+InitWith(ch) ==
+        /\ now = 0 /\ running = FALSE /\ list = << >> /\ nx = [i \in Ids |-> 0] /\ pv = [i \in Ids |-> 0]
         /\ nadded = 0 /\ lpc = "off" /\ lnow = 0 /\ wi = 0 /\ timer = Off
         /\ cpc = "idle" /\ cop = NoOp /\ reply = << >> /\ nops = 0 /\ nstops = 0
-        /\ jobs = << >> /\ wg = 0 /\ watchers = {} /\ c = CInit(0)
+        /\ jobs = << >> /\ wg = 0 /\ watchers = {} /\ c = CInitC(0, ch) /\ chain = ch
         /\ sch = [i \in Ids |-> [p |-> 0, ph |-> 0]] /\ blk = {}
+
+Init == InitWith(Chain)
 
 SNext(i, t) == NextAct(sch[i].p, sch[i].ph, t)
 Without(s, x) == SelectSeq(s, LAMBDA y : y # x)
@@ -73,7 +80,7 @@ CallSchedWith(p, ph, b) ==
           THEN /\ cpc' = "sending" /\ c' = Feed(c, <<call>>) /\ UNCHANGED list
           ELSE /\ list' = Append(list, id) /\ cpc' = "idle"
                /\ c' = Feed(c, <<call, [ev |-> "sched_ret", id |-> id]>>)
-  /\ UNCHANGED <<now, running, nx, pv, lpc, lnow, wi, timer, reply, nstops, jobs, wg, watchers>>
+  /\ UNCHANGED <<now, running, nx, pv, lpc, lnow, wi, timer, reply, nstops, jobs, wg, watchers, chain>>
 
 CallRemove(id) ==
   /\ id \in Range(list) /\ Begin("remove", id)
@@ -82,20 +89,20 @@ CallRemove(id) ==
           THEN /\ cpc' = "sending" /\ c' = Feed(c, <<call>>) /\ UNCHANGED list
           ELSE /\ list' = Without(list, id) /\ cpc' = "idle"
                /\ c' = Feed(c, <<call, [ev |-> "remove_ret", id |-> id]>>)
-  /\ UNCHANGED <<now, running, nx, pv, nadded, lpc, lnow, wi, timer, reply, nstops, jobs, wg, watchers, sch, blk>>
+  /\ UNCHANGED <<now, running, nx, pv, nadded, lpc, lnow, wi, timer, reply, nstops, jobs, wg, watchers, chain, sch, blk>>
 
 CallEntries ==
   /\ Begin("entries", 0)
   /\ IF running
        THEN /\ cpc' = "sending" /\ c' = Feed(c, <<[ev |-> "entries_call"]>>)
        ELSE /\ cpc' = "idle" /\ c' = Feed(c, <<[ev |-> "entries_call"], [ev |-> "entries_ret", list |-> Snapshot]>>)
-  /\ UNCHANGED <<now, running, list, nx, pv, nadded, lpc, lnow, wi, timer, reply, nstops, jobs, wg, watchers, sch, blk>>
+  /\ UNCHANGED <<now, running, list, nx, pv, nadded, lpc, lnow, wi, timer, reply, nstops, jobs, wg, watchers, chain, sch, blk>>
 
 CallStart ==
   /\ Begin("start", 0) /\ cpc' = "idle"
   /\ c' = Feed(c, <<[ev |-> "start"]>>)
   /\ IF running THEN UNCHANGED <<running, lpc>> ELSE running' = TRUE /\ lpc' = "init"
-  /\ UNCHANGED <<now, list, nx, pv, nadded, lnow, wi, timer, reply, nstops, jobs, wg, watchers, sch, blk>>
+  /\ UNCHANGED <<now, list, nx, pv, nadded, lnow, wi, timer, reply, nstops, jobs, wg, watchers, chain, sch, blk>>
 
 CallStop ==
   /\ Begin("stop", nstops + 1) /\ nstops' = nstops + 1
@@ -104,7 +111,7 @@ CallStop ==
           THEN /\ cpc' = "sending" /\ c' = Feed(c, <<[ev |-> "stop_call", k |-> k]>>) /\ UNCHANGED watchers
           ELSE /\ cpc' = "idle" /\ watchers' = watchers \cup {k}
                /\ c' = Feed(c, <<[ev |-> "stop_call", k |-> k], [ev |-> "stop_ret", k |-> k]>>)
-  /\ UNCHANGED <<now, running, list, nx, pv, nadded, lpc, lnow, wi, timer, reply, jobs, wg, sch, blk>>
+  /\ UNCHANGED <<now, running, list, nx, pv, nadded, lpc, lnow, wi, timer, reply, jobs, wg, chain, sch, blk>>
 
 (* the call returns (after the loop took the rendezvous) *)
 Ret ==
@@ -114,7 +121,7 @@ Ret ==
        [] cop.op = "entries" -> c' = Feed(c, <<[ev |-> "entries_ret", list |-> reply]>>) /\ UNCHANGED <<running, watchers>>
        [] cop.op = "stop"    -> /\ c' = Feed(c, <<[ev |-> "stop_ret", k |-> cop.id]>>)
                                 /\ running' = FALSE /\ watchers' = watchers \cup {cop.id}
-  /\ UNCHANGED <<now, list, nx, pv, nadded, lpc, lnow, wi, timer, cop, reply, nops, nstops, jobs, wg, sch, blk>>
+  /\ UNCHANGED <<now, list, nx, pv, nadded, lpc, lnow, wi, timer, cop, reply, nops, nstops, jobs, wg, chain, sch, blk>>
 
 CallSched == nadded < N /\ CallSchedWith(Scheds[nadded + 1].p, Scheds[nadded + 1].ph, (nadded + 1) \in Blocking)
 Call == CallSched \/ CallEntries \/ CallStart \/ CallStop \/ \E id \in Ids : CallRemove(id)
@@ -123,7 +130,7 @@ Call == CallSched \/ CallEntries \/ CallStart \/ CallStop \/ \E id \in Ids : Cal
 LInit == /\ lpc = "init" /\ lnow' = now
          /\ nx' = [i \in Ids |-> IF i \in Range(list) THEN SNext(i, now) ELSE nx[i]]
          /\ lpc' = "sort"
-         /\ UNCHANGED <<now, running, list, pv, nadded, wi, timer, cpc, cop, reply, nops, nstops, jobs, wg, watchers, c, sch, blk>>
+         /\ UNCHANGED <<now, running, list, pv, nadded, wi, timer, cpc, cop, reply, nops, nstops, jobs, wg, watchers, c, chain, sch, blk>>
 
 (* sort, arm the timer for entries[0].Next - now (relative to the clock's current time) *)
 LSort == /\ lpc = "sort" /\ list' = Sorted(list)
@@ -131,29 +138,33 @@ LSort == /\ lpc = "sort" /\ list' = Sorted(list)
                      ELSE [on |-> TRUE, dl |-> now + (nx[Sorted(list)[1]] - lnow), fired |-> FALSE,
                            buf |-> FALSE, val |-> 0]
          /\ lpc' = "select"
-         /\ UNCHANGED <<now, running, nx, pv, nadded, lnow, wi, cpc, cop, reply, nops, nstops, jobs, wg, watchers, c, sch, blk>>
+         /\ UNCHANGED <<now, running, nx, pv, nadded, lnow, wi, cpc, cop, reply, nops, nstops, jobs, wg, watchers, c, chain, sch, blk>>
 
 SelTimer == /\ lpc = "select" /\ timer.on /\ timer.buf
             /\ lnow' = timer.val /\ timer' = Off /\ lpc' = "wake" /\ wi' = 1
-            /\ UNCHANGED <<now, running, list, nx, pv, nadded, cpc, cop, reply, nops, nstops, jobs, wg, watchers, c, sch, blk>>
+            /\ UNCHANGED <<now, running, list, nx, pv, nadded, cpc, cop, reply, nops, nstops, jobs, wg, watchers, c, chain, sch, blk>>
 
+Before2(a, b) == a < b          \* time.Time.Before on the raw instants (the zero time is before everything)
 (* the leftover timer is stopped and drained before the next pass *)
 Drained == Off
 
+KeepTimer == Variant = "unsortedadd" /\ timer.on /\ list # << >>
+             /\ ~Before2(SNext(cop.id, now), nx[list[1]])
 SelAdd == /\ lpc = "select" /\ cpc = "sending" /\ cop.op = "sched"
           /\ lnow' = now /\ nx' = [nx EXCEPT ![cop.id] = SNext(cop.id, now)]
-          /\ list' = Append(list, cop.id) /\ timer' = Drained /\ lpc' = "sort" /\ cpc' = "got"
-          /\ UNCHANGED <<now, running, pv, nadded, wi, cop, reply, nops, nstops, jobs, wg, watchers, c, sch, blk>>
+          /\ list' = Append(list, cop.id) /\ cpc' = "got"
+          /\ IF KeepTimer THEN UNCHANGED <<timer, lpc>> ELSE timer' = Drained /\ lpc' = "sort"
+          /\ UNCHANGED <<now, running, pv, nadded, wi, cop, reply, nops, nstops, jobs, wg, watchers, c, chain, sch, blk>>
 SelRemove == /\ lpc = "select" /\ cpc = "sending" /\ cop.op = "remove"
              /\ lnow' = IF Variant = "stalenow" THEN lnow ELSE now
              /\ list' = Without(list, cop.id) /\ timer' = Drained /\ lpc' = "sort" /\ cpc' = "got"
-             /\ UNCHANGED <<now, running, nx, pv, nadded, wi, cop, reply, nops, nstops, jobs, wg, watchers, c, sch, blk>>
+             /\ UNCHANGED <<now, running, nx, pv, nadded, wi, cop, reply, nops, nstops, jobs, wg, watchers, c, chain, sch, blk>>
 SelSnapshot == /\ lpc = "select" /\ cpc = "sending" /\ cop.op = "entries"
                /\ reply' = Snapshot /\ cpc' = "got"
-               /\ UNCHANGED <<now, running, list, nx, pv, nadded, lpc, lnow, wi, timer, cop, nops, nstops, jobs, wg, watchers, c, sch, blk>>
+               /\ UNCHANGED <<now, running, list, nx, pv, nadded, lpc, lnow, wi, timer, cop, nops, nstops, jobs, wg, watchers, c, chain, sch, blk>>
 SelStop == /\ lpc = "select" /\ cpc = "sending" /\ cop.op = "stop"
            /\ timer' = Off /\ lpc' = "off" /\ cpc' = "got"
-           /\ UNCHANGED <<now, running, list, nx, pv, nadded, lnow, wi, cop, reply, nops, nstops, jobs, wg, watchers, c, sch, blk>>
+           /\ UNCHANGED <<now, running, list, nx, pv, nadded, lnow, wi, cop, reply, nops, nstops, jobs, wg, watchers, c, chain, sch, blk>>
 
 (* wake: every entry (in sorted order) whose Next is not after now is started *)
 LWake == /\ lpc = "wake"
@@ -165,27 +176,37 @@ LWake == /\ lpc = "wake"
                    /\ c' = Feed(c, <<[ev |-> "run", id |-> id]>>)
                    /\ wi' = wi + 1 /\ UNCHANGED lpc
               ELSE /\ lpc' = "sort" /\ UNCHANGED <<jobs, wg, pv, nx, c, wi>>
-         /\ UNCHANGED <<now, running, list, nadded, lnow, timer, cpc, cop, reply, nops, nstops, watchers, sch, blk>>
+         /\ UNCHANGED <<now, running, list, nadded, lnow, timer, cpc, cop, reply, nops, nstops, watchers, chain, sch, blk>>
 
 Loop == LInit \/ LSort \/ SelTimer \/ SelAdd \/ SelRemove \/ SelSnapshot \/ SelStop \/ LWake
 
 (* ---------------- job goroutines, Stop's waiter ---------------- *)
 SetSt(j, st) == [jobs EXCEPT ![j].st = st]
+(* the wrappers: DelayIfStillRunning holds a mutex (one per entry) around the job, SkipIfStillRunning a one-slot  *)
+(* token (one per entry); the invocation whose job is running or blocked holds it                                *)
+SameLock(j, k) == k # j /\ jobs[k].st \in {"running", "blocked"} /\ (jobs[k].id = jobs[j].id \/ Variant = "sharedmu")
+Held(j) == \E k \in 1..Len(jobs) : SameLock(j, k)
 JBegin(j) == /\ jobs[j].st = "spawned"
+             /\ (chain \in {"delay", "recover+delay", "skip"} => ~Held(j))
              /\ wg' = IF Variant = "lateadd" THEN wg + 1 ELSE wg
              /\ jobs' = SetSt(j, IF jobs[j].id \in blk THEN "blocked" ELSE "running")
              /\ c' = Feed(c, <<[ev |-> "jobstart", id |-> jobs[j].id]>>)
-             /\ UNCHANGED <<now, running, list, nx, pv, nadded, lpc, lnow, wi, timer, cpc, cop, reply, nops, nstops, watchers, sch, blk>>
+             /\ UNCHANGED <<now, running, list, nx, pv, nadded, lpc, lnow, wi, timer, cpc, cop, reply, nops, nstops, watchers, chain, sch, blk>>
+JSkip(j) == /\ jobs[j].st = "spawned" /\ chain = "skip" /\ Held(j)
+            /\ wg' = IF Variant = "lateadd" THEN wg ELSE wg - 1
+            /\ jobs' = [k \in 1..(Len(jobs) - 1) |-> IF k < j THEN jobs[k] ELSE jobs[k + 1]]
+            /\ c' = Feed(c, <<[ev |-> "jobskip", id |-> jobs[j].id]>>)
+            /\ UNCHANGED <<now, running, list, nx, pv, nadded, lpc, lnow, wi, timer, cpc, cop, reply, nops, nstops, watchers, chain, sch, blk>>
 JUnblock(j) == /\ jobs[j].st = "blocked" /\ jobs' = SetSt(j, "running")
-               /\ UNCHANGED <<now, running, list, nx, pv, nadded, lpc, lnow, wi, timer, cpc, cop, reply, nops, nstops, wg, watchers, c, sch, blk>>
+               /\ UNCHANGED <<now, running, list, nx, pv, nadded, lpc, lnow, wi, timer, cpc, cop, reply, nops, nstops, wg, watchers, c, chain, sch, blk>>
 JEnd(j) == /\ jobs[j].st = "running" /\ wg' = wg - 1
            /\ jobs' = [k \in 1..(Len(jobs) - 1) |-> IF k < j THEN jobs[k] ELSE jobs[k + 1]]
            /\ c' = Feed(c, <<[ev |-> "jobend", id |-> jobs[j].id]>>)
-           /\ UNCHANGED <<now, running, list, nx, pv, nadded, lpc, lnow, wi, timer, cpc, cop, reply, nops, nstops, watchers, sch, blk>>
+           /\ UNCHANGED <<now, running, list, nx, pv, nadded, lpc, lnow, wi, timer, cpc, cop, reply, nops, nstops, watchers, chain, sch, blk>>
 WDone(k) == /\ k \in watchers /\ wg = 0 /\ watchers' = watchers \ {k}
             /\ c' = Feed(c, <<[ev |-> "stopctx_done", k |-> k]>>)
-            /\ UNCHANGED <<now, running, list, nx, pv, nadded, lpc, lnow, wi, timer, cpc, cop, reply, nops, nstops, jobs, wg, sch, blk>>
-Job == \E j \in 1..Len(jobs) : JBegin(j) \/ JEnd(j)
+            /\ UNCHANGED <<now, running, list, nx, pv, nadded, lpc, lnow, wi, timer, cpc, cop, reply, nops, nstops, jobs, wg, chain, sch, blk>>
+Job == \E j \in 1..Len(jobs) : JBegin(j) \/ JEnd(j) \/ JSkip(j)
 Unblock == \E j \in 1..Len(jobs) : JUnblock(j)
 Waiter == \E k \in watchers : WDone(k)
 
@@ -197,16 +218,16 @@ Step(d) == /\ cpc = "idle" /\ Parked /\ now + d <= MaxNow
            /\ timer' = IF timer.on /\ ~timer.fired /\ timer.dl <= now + d
                          THEN [timer EXCEPT !.fired = TRUE, !.buf = TRUE, !.val = now + d] ELSE timer
            /\ c' = Feed(c, <<[ev |-> "adv", now |-> now + d]>>)
-           /\ UNCHANGED <<running, list, nx, pv, nadded, lpc, lnow, wi, cpc, cop, reply, nops, nstops, jobs, wg, watchers, sch, blk>>
+           /\ UNCHANGED <<running, list, nx, pv, nadded, lpc, lnow, wi, cpc, cop, reply, nops, nstops, jobs, wg, watchers, chain, sch, blk>>
 Adv == \E d \in 1..MaxStep : ~Pending /\ Step(d)
 Nudge == timer.on /\ ~timer.fired /\ timer.dl <= now /\ Step(0)
 
 (* a quiescent point as the harness reports it *)
-Quiet == /\ cpc = "idle" /\ Parked /\ ~Pending
-         /\ \A j \in 1..Len(jobs) : jobs[j].st = "blocked"
+Quiet == /\ cpc = "idle" /\ Parked /\ ~(timer.on /\ timer.buf)     \* an unfired timer, even overdue, leaves the loop blocked
+         /\ \A j \in 1..Len(jobs) : jobs[j].st = "blocked" \/ (jobs[j].st = "spawned" /\ chain \in {"delay", "recover+delay"} /\ Held(j))
          /\ (watchers = {} \/ wg > 0)
 Quiesce == /\ Quiet /\ c' = Feed(c, <<[ev |-> "quiescent"]>>)
-           /\ UNCHANGED <<now, running, list, nx, pv, nadded, lpc, lnow, wi, timer, cpc, cop, reply, nops, nstops, jobs, wg, watchers, sch, blk>>
+           /\ UNCHANGED <<now, running, list, nx, pv, nadded, lpc, lnow, wi, timer, cpc, cop, reply, nops, nstops, jobs, wg, watchers, chain, sch, blk>>
 
 Next == Call \/ Ret \/ Loop \/ Job \/ Unblock \/ Waiter \/ Adv \/ Nudge \/ Quiesce
 Spec == Init /\ [][Next]_vars /\ WF_vars(Loop) /\ WF_vars(Ret) /\ WF_vars(Job) /\ WF_vars(Nudge) /\ WF_vars(Waiter)
@@ -214,7 +235,7 @@ Spec == Init /\ [][Next]_vars /\ WF_vars(Loop) /\ WF_vars(Ret) /\ WF_vars(Job) /
 (* ---------------- properties ---------------- *)
 Accepted == ~IsBad(c)
 (* the model's own view agrees with the monitor's at rest *)
-ViewsAgree == (Quiet /\ running /\ ~IsBad(c)) =>
+ViewsAgree == (Quiet /\ ~Pending /\ running /\ ~IsBad(c)) =>
                 \A k \in 1..Len(list) : /\ c.ents[list[k]].next = nx[list[k]]
                                         /\ c.ents[list[k]].prev = pv[list[k]]
 WaitGroupSane == wg >= 0
